@@ -540,9 +540,9 @@ Section Main.
     | TStr lit => ok [DOut (VStr (lit ++ suffix) 0 :: s1') env]
     | _ =>
       bind_outsU (denU P pr g part env s1')
-                 (fun s2 _ =>
+                 (fun s2 e2 =>
                     match s2 with
-                    | v :: s2' => ok [DOut (VStr (show (p_tc P) v ++ suffix) 0 :: s2') env]
+                    | v :: s2' => ok [DOut (VStr (show (p_tc P) v ++ suffix) 0 :: s2') e2]
                     | [] => abort
                     end)
     end.
@@ -553,13 +553,13 @@ Section Main.
     intros [IHd _].
     assert (forall (t : tree),
       dle (bind_outsU (denU P prog f part env s1')
-             (fun s2 _ => match s2 with
-                          | v :: s2' => ok [DOut (VStr (show (p_tc P) v ++ suffix) 0 :: s2') env]
+             (fun s2 e2 => match s2 with
+                          | v :: s2' => ok [DOut (VStr (show (p_tc P) v ++ suffix) 0 :: s2') e2]
                           | [] => abort
                           end))
           (bind_outsU (denU P progS f (simplify part) env s1')
-             (fun s2 _ => match s2 with
-                          | v :: s2' => ok [DOut (VStr (show (p_tc P) v ++ suffix) 0 :: s2') env]
+             (fun s2 e2 => match s2 with
+                          | v :: s2' => ok [DOut (VStr (show (p_tc P) v ++ suffix) 0 :: s2') e2]
                           | [] => abort
                           end))) as Hb.
     { intros _. apply bindU_dle; [apply IHd|]. intros; apply dle_refl. }
@@ -568,8 +568,8 @@ Section Main.
     - destruct part; try discriminate IsStr. apply dle_refl.
     - assert (fpart prog f env part suffix s1' =
               bind_outsU (denU P prog f part env s1')
-                (fun s2 _ => match s2 with
-                             | v :: s2' => ok [DOut (VStr (show (p_tc P) v ++ suffix) 0 :: s2') env]
+                (fun s2 e2 => match s2 with
+                             | v :: s2' => ok [DOut (VStr (show (p_tc P) v ++ suffix) 0 :: s2') e2]
                              | [] => abort
                              end)) as EL by (destruct part; try reflexivity; discriminate IsStr).
       rewrite EL. clear EL.
@@ -634,7 +634,7 @@ Section Main.
         { induction l as [|part rest IHl]; [apply dle_refl|]. cbn [map].
           apply bindU_dle; [apply IHl|]. intros s1 e1.
           destruct s1 as [|[z d p0|suffix p0|l0 p0|blk cenv p0] s1']; try apply dle_refl.
-          apply (fpart_dle f env part suffix s1' IHf). }
+          apply (fpart_dle f e1 part suffix s1' IHf). }
         match goal with
         | |- dle (match ?A with _ => _ end) _ => destruct A as [| |evs ab] eqn:E; try vac
         end.
